@@ -300,3 +300,39 @@ Theorem C03_regex_inverts_printer_refuted_more :
   fill_checks (B "CREATE TABLE [t] ([a] int, CONSTRAINT [ck] CHECK (a > 0))") = [(None, B "(a > 0)")].
 Proof. exact w_more. Qed.
 Print Assumptions C03_regex_inverts_printer_refuted_more.
+
+(** 2g. ... and composed over the tied printer, like 2b: for EVERY table [x] that [print_table] accepts and
+    every generated column / the AUTOINCREMENT column [c] of it, the printed CREATE TABLE has the column at
+    some position [n] (everything the planner writes afterwards only appends to the text or rewrites its last
+    byte: [gen_column_in_table]); if no match of the column's regexp starts before [n] (and, for generated
+    columns, no further "AS (" follows in the same comma-free stretch), the inspector recovers exactly
+    sqlx.MayWrap(expr) / the column.  Both premises are decidable on the printed text; 3b / 3c show that
+    neither can be dropped. *)
+From Atlas Require Import Diff.Schema Sqlite.ExportColumnProofs.
+Theorem C03_regex_inverts_printer_genexpr_table_except :
+  forall x cols1 c cols2 e ty txt,
+  t_cols (x_t x) = cols1 ++ c :: cols2 -> c_gen c = Some (e, ty) -> has_autoinc x (c_name c) = false ->
+  c_default c = None -> c_class c <> 0%N -> name_ok (c_name c) -> type_ok (c_T c) -> wrapped (may_wrap e) ->
+  print_table x = Some txt ->
+  exists n rest,
+    (no_start_before _ (match_gen_at (c_name c)) txt n = true -> last_as (tl (may_wrap e) ++ rest) = None ->
+     set_gen_expr (c_name c) txt = GenOk (may_wrap e)).
+Proof. exact set_gen_expr_print_table. Qed.
+Print Assumptions C03_regex_inverts_printer_genexpr_table_except.
+
+Theorem C03_regex_inverts_printer_autoinc_table_except :
+  forall x cols1 c cols2 txt,
+  t_cols (x_t x) = cols1 ++ c :: cols2 -> c_gen c = None -> has_autoinc x (c_name c) = true ->
+  c_default c = None -> c_class c <> 0%N -> name_ok (c_name c) -> c_T c = t_integer ->
+  print_table x = Some txt ->
+  exists n,
+    (no_start_before _ match_autoinc_at txt n = true ->
+     autoinc txt (map c_name (t_cols (x_t x))) [c_name c] = AutoOk (c_name c)).
+Proof. exact autoinc_print_table. Qed.
+Print Assumptions C03_regex_inverts_printer_autoinc_table_except.
+
+Example C03_regex_inverts_printer_table_nonvacuous :
+  print_table w_tab_full = Some w_tab_full_text /\
+  set_gen_expr (B "cx") w_tab_full_text = GenOk (B "(a + 1)") /\
+  autoinc w_tab_full_text (map c_name (t_cols (x_t w_tab_full))) [B "id"] = AutoOk (B "id").
+Proof. split; [exact w_tab_full_print|vm_compute; split; reflexivity]. Qed.
